@@ -19,7 +19,8 @@ from haiway import MISSING, State, ctx  # noqa: E402
 ID = "C10"
 TECHNIQUE = "stateless exploration (DFS, prefix replay) of all interleavings of recording tasks over scope trees on the real metrics context; reference = per-task scope stack + left fold in observed order"
 RULE = (
-    "scope trees (root + up to 2 children, placed inline / ctx.spawn / create_task) with up to R "
+    "scope trees (root + up to 2 children as star or chain, placed inline / ctx.spawn / create_task; "
+    "optionally the child scope is left by a handled cancellation) with up to R "
     "records at positions {outside before, root before children, child body, root after "
     "children, child task after its scope, outside after} x metric type {M1, M2} x merge "
     "{default replace, concatenate (non-commutative), raising}; every interleaving; "
@@ -30,7 +31,10 @@ ASSUMPTIONS = [
     "metric classes are truthy (no __bool__/__len__)",
     "a record made through a context whose scope already completed is dropped (and never raises)",
 ]
-BOUNDS = {"quick": {"children": 1, "records": 3}, "thorough": {"children": 2, "records": 4}}
+BOUNDS = {
+    "quick": {"children": 2, "records": 3, "records_two_children": 2},
+    "thorough": {"children": 2, "records": 4, "records_two_children": 3},
+}
 EXHAUSTIVE = {"quick": True, "thorough": True}
 SAMPLE_EVERY = {"quick": 6000, "thorough": 120000}
 
@@ -75,11 +79,22 @@ def programs(tier: str):
         for c in range(nchild):
             positions += [f"c{c}-body", f"c{c}-late"]
         for placement in itertools.product(places, repeat=nchild):
-            for root_kind in ("a", "s"):
+            for root_kind, shape, c0_end in (
+                ("a", "star", "return"),
+                ("s", "star", "return"),
+                ("a", "chain", "return"),
+                ("a", "star", "cancel"),
+            ):
                 if root_kind == "s" and nchild == 2:
                     continue
+                if shape == "chain" and nchild != 2:
+                    continue
+                if c0_end == "cancel" and nchild != 1:
+                    continue
+                if tier == "quick" and nchild == 2 and shape != "chain":
+                    continue  # quick: two children only as a chain (3 nesting levels)
                 for nrec in range(1, b["records"] + 1):
-                    if nchild == 2 and nrec > 3:
+                    if nchild == 2 and nrec > b["records_two_children"]:
                         continue
                     for pos in itertools.combinations_with_replacement(positions, nrec):
                         if nchild and nrec == b["records"] and not any(p.startswith("c") for p in pos):
@@ -89,9 +104,17 @@ def programs(tier: str):
                                 continue
                             if nrec == 4 and len(set(opts)) > 2:
                                 continue
+                            if shape == "chain" and not any(p.startswith("c1") for p in pos):
+                                continue
+                            if tier == "quick" and nchild == 2 and any(o > 1 for o in opts):
+                                continue
+                            if c0_end == "cancel" and not any(p in ("c0-late", "root-post") for p in pos):
+                                continue
                             yield {
                                 "root": root_kind,
                                 "children": list(placement),
+                                "shape": shape,
+                                "c0_end": c0_end,
                                 "records": [[p, *OPTIONS[o]] for p, o in zip(pos, opts)],
                             }
 
@@ -161,11 +184,30 @@ def execute(program, ch: Chooser) -> Result:  # noqa: C901, PLR0915
         await w.pause(f"{name}.enter")
         scopes[name] = {"created": len(events), "parent": stacks[me][-1] if stacks[me] else None}
         events.append(("created", name))
-        async with ctx.scope(name, completion=make_cb(name, False)):
-            stacks[me].append(name)
-            await run_records(f"{name}-body")
-            await w.pause(f"{name}.exit")
-            stacks[me].pop()
+        try:
+            async with ctx.scope(name, completion=make_cb(name, False)):
+                stacks[me].append(name)
+                try:
+                    await run_records(f"{name}-body")
+                    if c == 0 and program.get("shape") == "chain":
+                        place = program["children"][1]
+                        if place == "inline":
+                            await child(1, stacks[me])
+                        elif place == "spawn":
+                            ctx.spawn(child, 1, list(stacks[me]))
+                        else:
+                            w.loop.create_task(child(1, list(stacks[me])))
+                    await w.pause(f"{name}.exit")
+                    if c == 0 and program.get("c0_end") == "cancel":
+                        # the scope is left by a cancellation which the surrounding code handles
+                        asyncio.current_task().cancel()
+                        await asyncio.sleep(0)
+                finally:
+                    stacks[me].pop()
+        except asyncio.CancelledError:
+            if not (c == 0 and program.get("c0_end") == "cancel"):
+                raise
+            asyncio.current_task().uncancel()
         await run_records(f"{name}-late")
 
     async def root() -> None:
@@ -181,6 +223,8 @@ def execute(program, ch: Chooser) -> Result:  # noqa: C901, PLR0915
         stacks[me].append("root")
         await run_records("root-pre")
         for c, place in enumerate(program["children"]):
+            if c == 1 and program.get("shape") == "chain":
+                continue  # started by c0
             if place == "inline":
                 await child(c, stacks[me])
             elif place == "spawn":
@@ -268,17 +312,25 @@ def execute(program, ch: Chooser) -> Result:  # noqa: C901, PLR0915
                 key=lambda n: scopes[n]["created"],
             )
 
-            def fold(f_name):
-                acc: dict[str, tuple[int, str]] = dict(ref["root"])
-                for k in kids:
-                    for tname, val in ref[k].items():
+            def view(name, f_name):
+                """own values, then the views of nested scopes in creation order (depth first)"""
+                acc: dict[str, tuple[int, str]] = dict(ref[name])
+                nested = sorted(
+                    (n for n in scopes if scopes[n].get("parent") == name and scopes[n]["created"] < scopes["root"]["cb_seq"]),
+                    key=lambda n: scopes[n]["created"],
+                )
+                for k in nested:
+                    for tname, val in view(k, f_name).items():
                         cur = acc.get(tname)
                         if cur is None:
                             acc[tname] = val
                         elif f_name == "concat":
                             acc[tname] = (cur[0] + val[0], cur[1] + val[1])
-                    # keep-first: existing value wins
+                        # keep-first: existing value wins
                 return acc
+
+            def fold(f_name):
+                return view("root", f_name)
 
             for f_name, key in (("concat", "view_concat"), ("first", "view_first")):
                 got_list = scopes["root"]["cb"][key]
